@@ -47,14 +47,24 @@ extern void *mpt_array_append(MPT_STRUCT(array) *arr, size_t len, const void *ba
 	/* need more or private space */
 	else if (len > (b->_size - (used = b->_used))
 	         || (len && (b->_vptr->get_flags(b) & (MPT_ENUM(BufferShared) | MPT_ENUM(BufferImmutable))))) {
+		/* source may be content of this array: data moves when buffer is replaced */
+		const uint8_t *own = (const uint8_t *) (b + 1);
+		ssize_t keep = -1;
+		
 		if (len > (SIZE_MAX - used)) {
 			errno = EINVAL;
 			return 0;
+		}
+		if (base && ((const uint8_t *) base >= own) && ((const uint8_t *) base < (own + used))) {
+			keep = (const uint8_t *) base - own;
 		}
 		if (!(b = b->_vptr->detach(b, used + len))) {
 			return 0;
 		}
 		arr->_buf = b;
+		if (keep >= 0) {
+			base = ((const uint8_t *) (b + 1)) + keep;
+		}
 	}
 	dest = ((uint8_t *)(b + 1)) + used;
 	if (!len) {
